@@ -148,7 +148,7 @@ CHECKS = {
              "changes nothing; no API call takes the track count past a non-zero limit; named replace does not grow the list; "
              "removed/muted tracks emit nothing.",
         design="DESIGN.md §3 C06",
-        note=SCHED_NOTE + " len<=max is proved per API call (incl. calls made from callbacks), not yet as one invariant over whole histories.",
+        note=SCHED_NOTE + " len<=max_tracks is proved per API call and as an invariant over whole histories (any calls, ticks, callbacks, faults) that do not change the limit itself.",
         technique="Lean 4 decision-logic / invariant theorems + differential correspondence"),
     "C07": dict(
         text="Theorems: the calls of one tick are all due note-offs of all tracks (track order) followed by the event phase in "
